@@ -85,8 +85,7 @@ def build(prop: str) -> BuildResult:
 
 
 def load_obligations(prop: str):
-    ob = json.loads((VERIF / "obligations.json").read_text())
-    return ob[prop]
+    return json.loads((VERIF / "obligations" / f"{prop}.json").read_text())
 
 
 def source_grep() -> list[str]:
@@ -343,3 +342,19 @@ class Scratch:
 
     def __exit__(self, *a):
         shutil.rmtree(self.d, ignore_errors=True)
+
+
+def run_cli(module: str, args, cwd, env_extra=None, timeout=300):
+    """Run one of the real command-line front ends (`codebasin`, `codebasin.tree`,
+    `codebasin.coverage`) from REPO's working tree in a fresh interpreter.
+    Returns (returncode, stdout, stderr)."""
+    env = dict(os.environ)
+    env["PYTHONPATH"] = str(REPO)
+    env.setdefault("PYTHONHASHSEED", "0")
+    env["MPLBACKEND"] = "Agg"
+    if env_extra:
+        env.update(env_extra)
+    p = subprocess.run(
+        [sys.executable, "-m", module] + list(args), cwd=str(cwd), env=env, capture_output=True, text=True, timeout=timeout
+    )
+    return p.returncode, p.stdout, p.stderr
